@@ -251,3 +251,61 @@ Section RDKit.
 End RDKit.
 Arguments rsmi_to_its_s [str] rd_read r p.
 Arguments its_to_rsmi_s [str] rd_write I.
+
+(** ** rsmi_to_its(explicit_hydrogen=True) = h_to_explicit(its, None, True) on the ITS
+    (synkit/Graph/Hyrogen/_misc.py h_to_explicit + normalize_edge_orders, as repaired: on an ITS node only the
+    hydrogens present on BOTH sides become explicit atoms, and both halves of typesGH lose them) *)
+Definition h_inode : inode :=
+  IN EL_H 0 0 (Some (false, 0, [])) (NA EL_H false 0 0 []) (NA EL_H false 0 0 []).   (* 'neighbors' is absent on these nodes *)
+Definition set_hc_n (a : nattr) (h : Z) : nattr := NA (a_el a) (a_arom a) h (a_ch a) (a_nb a).
+(** H2.nodes[heavy].get("hcount", 0) *)
+Definition top_hc (a : inode) : Z := match i_extra a with Some (_, hc, _) => hc | None => 0 end.
+(** count = min(hcount, typesGH[1][2]) *)
+Definition hx_count (a : inode) : Z := Z.min (top_hc a) (a_hc (i_H a)).
+(** hcount -= count; typesGH[0][2] -= count; typesGH[1][2] -= count *)
+Definition hx_dec (a : inode) (c : Z) : inode :=
+  IN (i_el a) (i_ch a) (i_amap a)
+     (match i_extra a with Some (ar, hc, nb) => Some (ar, hc - c, nb) | None => None end)
+     (set_hc_n (i_G a) (a_hc (i_G a) - c)) (set_hc_n (i_H a) (a_hc (i_H a) - c)).
+
+Definition hx_state := (list (N * inode) * list (N * N * iedge) * N)%type.    (* H2's nodes, edges, max_node *)
+
+(** one iteration of "for heavy in nodes" *)
+Definition hx_step (st : hx_state) (heavy : N) : hx_state :=
+  let '(ns, es, mx) := st in
+  match assoc heavy ns with
+  | None => st
+  | Some a =>
+      let c := hx_count a in
+      if c <=? 0 then st
+      else
+        let new := map (fun i => (mx + N.of_nat i)%N) (seq 1 (Z.to_nat c)) in
+        (map (fun q => if N.eqb (fst q) heavy then (fst q, hx_dec (snd q) c) else q) ns ++ map (fun n => (n, h_inode)) new,
+         es ++ map (fun n => (heavy, n, IE 2 2 0)) new,            (* order=1.0 -> (1.0, 1.0), standard_order 0.0 *)
+         (mx + N.of_nat (Z.to_nat c))%N)
+  end.
+
+(** the explicit-hydrogen ITS and the ids of the hydrogen atoms it invented *)
+Definition h_to_explicit_its (I : its) : its * list N :=
+  let mx0 := fold_left N.max (node_ids I) 0%N in
+  let '(ns, es, _) := fold_left hx_step (node_ids I) (gnodes I, gedges I, mx0) in
+  (LG ns es, filter (fun n => N.ltb mx0 n) (map fst ns)).
+
+Definition rsmi_to_its_eh (mr mp : rmol) : option (its * list N) :=
+  match rsmi_to_its_m mr mp with Some J => Some (h_to_explicit_its J) | None => None end.
+
+(** observable of an explicit-hydrogen ITS: top-level 'neighbors' is reported as present / absent only *)
+Definition tinode_eh (new : list N) (p : N * inode) : tok :=
+  let a := snd p in
+  L [tN (fst p); tN (i_el a); tZ (i_ch a); tZ (i_amap a);
+     topt (fun x : bool * Z * list N => L [tbool (fst (fst x)); tZ (snd (fst x))]) (i_extra a);
+     tbool (negb (mem (fst p) new)); tnattr (i_G a); tnattr (i_H a)].
+
+Definition run_str_eh (mr mp : rmol) : tok :=
+  match rsmi_to_its_eh mr mp with
+  | None => L []
+  | Some (J, new) =>
+      let gs := its_to_graphs J in
+      L [L [tset (tinode_eh new) (gnodes J); tset tiedge (gedges J)]; tset tZ (hlist J); tmgraph (fst gs); tmgraph (snd gs);
+         topt twmol (graph_to_wmol (fst gs)); topt twmol (graph_to_wmol (snd gs))]
+  end.
